@@ -79,7 +79,7 @@ m("c18-split-last-off-by-one", "C18", POST, "meas_other, meas_last_n = measure[:
 m("c18-post-select-keeps-ancilla", "C18", HIST, "        self.counts = new_hist.counts\n        self.remove_qubit_indices(*list(expected_outcomes.keys()))", "        self.counts = new_hist.counts")
 m("c18-assembled-value-abs-coef", "C18", GRP, "exp_value += get_expectation_value_from_frequencies_oneterm(term, freqs) * coef", "exp_value += get_expectation_value_from_frequencies_oneterm(term, freqs) * abs(coef)")
 m("c18-msq-first-ignored", "C18", HIST, "            self.counts = {k[::-1]: v for k, v in self.counts.items()}", "            self.counts = {k: v for k, v in self.counts.items()}")
-m("c18-group-repeat-drops-group", "C18", GRP, "            if len(res2) < len(res):\n                res = res2", "            if len(res2) <= len(res):\n                res = dict(list(res2.items())[:max(1, len(res2) - (len(res2) > 2))])")
+m("c18-group-repeat-drops-group", "C18", GRP, "        if len(res2) < len(res):\n            res = res2", "        if len(res2) <= len(res):\n            res = dict(list(res2.items())[:max(1, len(res2) - (len(res2) > 2))])")
 m("c18-iadd-aliases-other", "C18", HIST, "        new_histogram = self + other\n        self.__dict__ = new_histogram.__dict__", "        new_histogram = self + other\n        self.__dict__ = new_histogram.__dict__\n        other.counts = self.counts")
 m("c18-aggregate-skips-duplicates", "C18", HIST, "total_counter = sum([Counter({k: v for k, v in h.counts.items()}) for h in hists], Counter())", "total_counter = sum([Counter({k: v for k, v in h.counts.items()}) for h in {id(x): x for x in hists}.values()], Counter())")
 
@@ -98,7 +98,8 @@ m("c01-shots-state-leak", "C01", BACK, "            distr = stats.rv_discrete(na
 
 # ---- C02 ------------------------------------------------------------------------------------------------------------
 m("c02-y-basis-sign", "C02", "tangelo/linq/helpers/circuits/measurement_basis.py", 'gates.append(Gate("RX", qubit_index, parameter=np.pi/2))', 'gates.append(Gate("RX", qubit_index, parameter=-np.pi/2))')
-m("c02-variance-not-squared", "C02", BACK, "variance_term += freq*(expectation_term - sample)**2", "variance_term += freq*abs(expectation_term - sample)")
+# (freq*abs(expectation_term - sample) is *equivalent* for +/-1 outcomes: sum f|E-s| = 4 p+ p- = 1 - E^2; replaced)
+m("c02-variance-around-wrong-mean", "C02", BACK, "variance_term += freq*(expectation_term - sample)**2", "variance_term += freq*(abs(expectation_term) - sample)**2")
 m("c02-imaginary-part-dropped", "C02", BACK, "return exp_real if (exp_imag == 0.) else exp_real + 1.0j * exp_imag", "return exp_real")
 m("c02-standard-error-formula", "C02", BACK, "return np.sqrt(variance/self.n_shots) if self.n_shots else 0.", "return np.sqrt(variance)/self.n_shots if self.n_shots else 0.")
 m("c02-identity-term-skipped-freq-route", "C02", BACK, "            elif not term:  # Empty term: no simulation needed\n                expectation_value += coef\n                continue\n\n            basis_circuit = Circuit(measurement_basis_gates(term))",
@@ -145,6 +146,8 @@ m("c07-uccsd-update-factor", "C07", AG + "uccsd.py", "self.circuit._variational_
 m("c07-uccsd-no-rebuild-on-support-change", "C07", AG + "uccsd.py", "        if set(self.pauli_to_angles_mapping.keys()) != set(qubit_op.terms.keys()):\n            self.build_circuit(var_params)",
   "        if len(self.pauli_to_angles_mapping) < len(qubit_op.terms):\n            self.build_circuit(var_params)")
 m("c07-revert-upccgsd-cumulative", "C07", AG + "upccgsd.py", "sum_prev_qubit_terms[current_k + 1] = sum_prev_qubit_terms[current_k] + len(qubit_op.terms.items())", "sum_prev_qubit_terms[current_k + 1] = len(qubit_op.terms.items())")
+# NOTE: pUCCD.build_circuit sets its angles through update_var_params, i.e. one shared code path: the incremental-vs-fresh
+# oracle cannot see this mutant (documented limit, DESIGN section 13). Kept to document the limit; flagged expected_miss.
 m("c07-puccd-mapping-reversed", "C07", AG + "puccd.py", "            self.circuit._variational_gates[gate_index].parameter = var_params[i]", "            self.circuit._variational_gates[gate_index].parameter = var_params[len(excitations) - 1 - i]")
 m("c07-vsqs-block-offset", "C07", AG + "vsqs.py", "self.n_var_gates * i + self.n_h_init * self.trotter_order,", "self.n_var_gates * i + self.n_h_init,")
 m("c07-revert-qcc-mapping-reset", "C07", AG + "qcc.py", "        self.pauli_to_angles_mapping = dict()\n        for i, (pauli_word, coef) in enumerate(pauli_words):", "        for i, (pauli_word, coef) in enumerate(pauli_words):")
@@ -170,4 +173,5 @@ m("c08-optimal-circuit-without-projective", "C08", VQE, "        if self.project
 m("c08-energy-cached-by-parameters", "C08", VQE, "        energy = self.backend.get_expectation_value(self.qubit_hamiltonian, circuit, **self.simulate_options)\n\n        # Additional computation for deflation",
   "        key = tuple(np.round(np.array(var_params, dtype=float), 3))\n        if not hasattr(self, \"_ecache\"):\n            self._ecache = dict()\n        if key not in self._ecache:\n            self._ecache[key] = self.backend.get_expectation_value(self.qubit_hamiltonian, circuit, **self.simulate_options)\n        energy = self._ecache[key]\n\n        # Additional computation for deflation")
 
+EXPECTED_MISS = {"c07-puccd-mapping-reversed": "build_circuit delegates to update_var_params: single code path, invisible to incremental-vs-fresh"}
 MUTANTS = M
